@@ -71,6 +71,10 @@ def fault_atoms():
          ["send_bad", "value", "hdr"]],
         [["sub_raise", "msg", 1], ["status"]],
         [["sub_raise", "conn", 1]],
+        # a subscriber that ends with the cancellation of something it awaited
+        [["sub_raise", "msg", 2], ["status"]],
+        [["sub_raise", "conn", 2], ["fin"]],
+        [["sub_raise", "msg", 2], ["sub_raise", "conn", 2], ["status"], ["rst"], ["status"]],
         [["rst", "timeout"]], [["rst", "oserror"]],
         [["fin"], ["net", "refuse", 0.0]],
         [["rst"], ["net", "refuse", 0.0], ["net", "refuse", 0.0]],
